@@ -67,7 +67,7 @@ def build(case):
     kw = {"vdims": list(case["vdims"])} if case["vdims"] else {}
     if case.get("unlabelled"):
         kw = {"vdims": []}
-    f = df.Field(mesh, nvdim=case["k"], value=arr, dtype=dt, unit=case["unit"], **kw)
+    f = df.Field(mesh, nvdim=case["k"], value=np.array(arr, copy=True), dtype=dt, unit=case["unit"], **kw)
     if case.get("unlabelled"):
         require(f.vdims is None, "unlabelled-field-has-labels", f"{f.vdims}")
     return mesh, f, arr
